@@ -22,8 +22,8 @@ Proof. reflexivity. Qed.
 Lemma ct_trunc_ladder : forall f x, ct_trunc f x = ladder f x (gcem_trunc_int f x).
 Proof. reflexivity. Qed.
 Lemma ct_round_ladder : forall f x,
-  ct_round f x = ladder f x (do w <- gcem_find_whole f (gcem_abs x);
-                             Ok (fmul f (of_int f (gcem_sgn x)) (of_int f w))).
+  ct_round f x = ladder f x (do w <- gcem_round_int f (gcem_abs x);
+                             Ok (fmul f (of_int f (gcem_sgn x)) w)).
 Proof. reflexivity. Qed.
 
 Lemma mk_int : forall k n, 0 <= k -> mk k (n * 2 ^ k) = mk 0 n.
